@@ -615,6 +615,19 @@ bool Instance::configure_tx_txin() {
             }
         } else assert(!"should never get here; was a new witprogver added?");
 
+        if (sigver == SigVersion::WITNESS_V0 || sigver == SigVersion::TAPSCRIPT) {
+            // the limits validation applies to the initial stack of a witness script (ExecuteWitnessScript)
+            if (sigver == SigVersion::TAPSCRIPT && wstack_to_stack > MAX_STACK_SIZE) {
+                fprintf(stderr, "witness stack has %zu items; at most %d are allowed\n", wstack_to_stack, MAX_STACK_SIZE);
+                return false;
+            }
+            for (size_t i = 0; i < wstack_to_stack; i++) {
+                if (wstack[i].size() > MAX_SCRIPT_ELEMENT_SIZE) {
+                    fprintf(stderr, "witness stack item %zu is %zu bytes; at most %u are allowed\n", i, wstack[i].size(), MAX_SCRIPT_ELEMENT_SIZE);
+                    return false;
+                }
+            }
+        }
         if (parse_script(std::vector<uint8_t>(validation.begin(), validation.end()))) {
             btc_logf("valid script\n");
         } else {
